@@ -221,7 +221,9 @@ def run(repo, rep, tier):
     for q, call in (("wavespectra.specarray.SpecArray.smooth", "smooth_spec"),):
         f2 = repo.func(q)
         c = [n for n in ast.walk(f2.node) if isinstance(n, ast.Call) and call_name(n) == call]
-        kws = {k.arg: unparse(k.value) for k in c[0].keywords} if c else {}
+        from ..astutil import bound_args
+        b_ = bound_args(repo, f2, c[0]) if c else None
+        kws = {k_: unparse(v_) for k_, v_ in (b_ or {}).items()}
         if kws.get("freq_window") == "freq_window" and kws.get("dir_window") == "dir_window":
             rep.ok("R-C16-3", f"{f2.file}:{c[0].lineno} {f2.short}", unparse(c[0]), "windows passed to their own parameters")
         else:
